@@ -2,6 +2,7 @@ import Dashu.Driver.Loop
 import Dashu.Model.Conv.Ieee
 import Dashu.Model.Conv.Prim
 import Dashu.Model.Conv.Ratio
+import Dashu.Model.Conv.Exact
 /-
   Driver of group `conv` (C06).  For every op it prints what the property REQUIRES (the spec);
   where a mirrored model exists it is evaluated beside the spec and a difference is reported as
@@ -320,6 +321,48 @@ def floatTryToIeeeOp (ty : String) (F : Ieee) (s : Int) (e : Int) : String :=
   else if r.1 % F.signBit = F.infBits then ok (errStr .outOfBounds)
   else ok (errStr .lossOfPrecision)
 
+-- ------------------------------------------------------------------ mirrored models beside the specs (round 2)
+
+def convNatStr : Except ConvErr Nat → String
+  | .ok v => natToHex v | .error e => errStr e
+def convIntStr : Except ConvErr Int → String
+  | .ok v => intToHex v | .error e => errStr e
+
+def adjName : Option Float.Rounding → String
+  | none => "Exact" | some r => Float.rName r
+
+def floatModeOf : Mode → Float.Mode
+  | .zero => .zero | .away => .away | .up => .up | .down => .down | .halfEven => .halfEven | .halfAway => .halfAway
+
+/-- the mirrored `FBig::<R,2>::to_fNN` (code as it is, including its double rounding) -/
+def fbigToFloatCodeOp (ty : String) (k : IntoConsts) (mode : Mode) (s e : Int) : String :=
+  match fbigToFloat k (floatModeOf mode) Float.coarseNone (Float.FRepr.new 2 s e) with
+  | .ok (bits, fl) => ok (fbits ty bits ++ " " ++ adjName fl)
+  | .error kd => panic kd.name
+
+def fbigTryToFloatModel (ty : String) (k : IntoConsts) (s e : Int) : String :=
+  match fbigTryToFloat k Float.coarseNone (Float.FRepr.new 2 s e) with
+  | .ok (.ok b) => ok (fbits ty b)
+  | .ok (.error er) => ok (errStr er)
+  | .error kd => panic kd.name
+
+def ratTryToFloatModel (ty : String) (c : EncConsts) (lb ub : Int) (num : Int) (den : Nat) : String :=
+  let (n, d) := gcdReduce num den
+  match ratTryToFloat c lb ub n d with
+  | .ok (.ok b) => ok (fbits ty b)
+  | .ok (.error er) => ok (errStr er)
+  | .error kd => panic kd.name
+
+/-- spec string and model string must coincide (both already carry `ok `) -/
+def chk2 (model spec : String) : String :=
+  if model = spec then spec else spec ++ " !model-spec-mismatch model=" ++ model
+
+def fbigFromFloatModel (d : DecConsts) (b : Nat) : String :=
+  match fbigFromFloat d b with
+  | .error e => ok (errStr e)
+  | .ok (.infinity neg) => ok (if neg then "-inf d:0" else "inf d:0")
+  | .ok (.finite r p) => ok (intToHex r.signif ++ " " ++ decStr r.exp ++ " " ++ decStr p)
+
 def parseBase (s : String) : Option Nat := do
   let b ← parseDecNat s
   if b = 2 ∨ b = 10 ∨ b = 16 ∨ b = 3 then some b else none
@@ -332,14 +375,29 @@ def dispatch : Dispatch := fun W op args =>
   | "r.to_f64.asis", [a, b] => do let n ← parseInt a; let d ← parseNat b; if d = 0 then none else pure (ratToFloatOp "f64" rat64 f64Fixed n d true)
   | "r.to_f32_fast", [a, b] => do let n ← parseInt a; let d ← parseNat b; if d = 0 then none else pure (ratFastOp "f32" rat32 f32Fixed n d)
   | "r.to_f64_fast", [a, b] => do let n ← parseInt a; let d ← parseNat b; if d = 0 then none else pure (ratFastOp "f64" rat64 f64Fixed n d)
-  | "r.tryto_f32", [a, b] => do let n ← parseInt a; let d ← parseNat b; if d = 0 then none else pure (ratTryToFloatOp "f32" .binary32 32 n d)
-  | "r.tryto_f64", [a, b] => do let n ← parseInt a; let d ← parseNat b; if d = 0 then none else pure (ratTryToFloatOp "f64" .binary64 64 n d)
-  | "r.from_f32", [a] => do let b ← parseFloatBits "f32" 32 a; pure (ratFromFloatOp f32Dec b)
-  | "r.from_f64", [a] => do let b ← parseFloatBits "f64" 64 a; pure (ratFromFloatOp f64Dec b)
-  | "r.to_int", [a, b] => do let n ← parseInt a; let d ← parseNat b; if d = 0 then none else pure (ratToIntOp n d)
-  | "r.to.ibig", [a, b] => do let n ← parseInt a; let d ← parseNat b; if d = 0 then none else pure (ratToBigOp n d false)
-  | "r.to.ubig", [a, b] => do let n ← parseInt a; let d ← parseNat b; if d = 0 then none else pure (ratToBigOp n d true)
-  | "r.to", [ty, a, b] => do let n ← parseInt a; let d ← parseNat b; if d = 0 then none else ratToPrimOp ty n d
+  | "r.tryto_f32", [a, b] => do let n ← parseInt a; let d ← parseNat b; if d = 0 then none else pure (chk2 (ratTryToFloatModel "f32" f32Fixed (-149) 128 n d) (ratTryToFloatOp "f32" .binary32 32 n d))
+  | "r.tryto_f64", [a, b] => do let n ← parseInt a; let d ← parseNat b; if d = 0 then none else pure (chk2 (ratTryToFloatModel "f64" f64Fixed (-1074) 1024 n d) (ratTryToFloatOp "f64" .binary64 64 n d))
+  | "r.from_f32", [a] => do
+    let b ← parseFloatBits "f32" 32 a
+    let m := match ratFromFloat f32Dec b with | .ok (n, d) => ok (ratStr n d) | .error e => ok (errStr e)
+    pure (chk2 m (ratFromFloatOp f32Dec b))
+  | "r.from_f64", [a] => do
+    let b ← parseFloatBits "f64" 64 a
+    let m := match ratFromFloat f64Dec b with | .ok (n, d) => ok (ratStr n d) | .error e => ok (errStr e)
+    pure (chk2 m (ratFromFloatOp f64Dec b))
+  | "r.to_int", [a, b] => do let n ← parseInt a; let d ← parseNat b; if d = 0 then none else pure (
+      let (rn, rd) := gcdReduce n d
+      let m := match ratToInt rn rd with
+        | (t, none) => ok (intToHex t ++ " Exact")
+        | (t, some (fn, fd)) => ok (intToHex t ++ " Inexact " ++ ratStr fn fd)
+      chk2 m (ratToIntOp n d))
+  | "r.to.ibig", [a, b] => do let n ← parseInt a; let d ← parseNat b; if d = 0 then none else pure (let (rn, rd) := gcdReduce n d; chk2 (ok (convIntStr (ratTryToIBig rn rd))) (ratToBigOp n d false))
+  | "r.to.ubig", [a, b] => do let n ← parseInt a; let d ← parseNat b; if d = 0 then none else pure (let (rn, rd) := gcdReduce n d; chk2 (ok (convNatStr (ratTryToUBig rn rd))) (ratToBigOp n d true))
+  | "r.to", [ty, a, b] => do let n ← parseInt a; let d ← parseNat b; if d = 0 then none else do
+      let spec ← ratToPrimOp ty n d
+      let (lo, hi) ← primRange ty
+      let (rn, rd) := gcdReduce n d
+      pure (chk2 (ok (convStr ty (ratTryToPrim lo hi rn rd))) spec)
   | "r.from.ibig", [a] => do let n ← parseInt a; pure (ok (intToHex n ++ " 1"))
   | "r.to_float", [bs, ms, a, b, pr] => do
     let B ← parseBase bs; let mode ← Mode.parse ms
@@ -362,23 +420,24 @@ def dispatch : Dispatch := fun W op args =>
     pure (floatToIntOp B .zero s e)
   | "f.try.ibig", [bs, a, ex] => do
     let B ← parseBase bs; let s ← parseInt a; let e ← parseDec ex
-    pure (floatTryBigOp B s e false)
+    pure (chk2 (ok (convIntStr (fbigTryToIBig B (Float.FRepr.new B s e)))) (floatTryBigOp B s e false))
   | "f.try.ubig", [bs, a, ex] => do
     let B ← parseBase bs; let s ← parseInt a; let e ← parseDec ex
-    pure (floatTryBigOp B s e true)
+    pure (chk2 (ok (convNatStr (fbigTryToUBig B (Float.FRepr.new B s e)))) (floatTryBigOp B s e true))
   | "f.try", [ty, bs, a, ex] => do
     let B ← parseBase bs; let s ← parseInt a; let e ← parseDec ex
     floatTryPrimOp ty B s e
   | "f.to.rbig", [bs, a, ex] => do
     let B ← parseBase bs; let s ← parseInt a; let e ← parseDec ex
     let (n, d) := floatAsRat B s e
-    pure (ok (ratStr n d))
+    let m := match fbigToRat B (Float.FRepr.new B s e) with | .ok (n', d') => ok (ratStr n' d') | .error er => ok (errStr er)
+    pure (chk2 m (ok (ratStr n d)))
   | "f.from.ibig", [bs, a] => do
     let B ← parseBase bs; let v ← parseInt a
     let (s, e) := normalizeRepr B v 0
     pure (ok (intToHex s ++ " " ++ decStr e ++ " " ++ intToHex v))
-  | "f.from_f32", [a] => do let b ← parseFloatBits "f32" 32 a; pure (floatFromIeeeOp f32Dec b)
-  | "f.from_f64", [a] => do let b ← parseFloatBits "f64" 64 a; pure (floatFromIeeeOp f64Dec b)
+  | "f.from_f32", [a] => do let b ← parseFloatBits "f32" 32 a; pure (chk2 (fbigFromFloatModel f32Dec b) (floatFromIeeeOp f32Dec b))
+  | "f.from_f64", [a] => do let b ← parseFloatBits "f64" 64 a; pure (chk2 (fbigFromFloatModel f64Dec b) (floatFromIeeeOp f64Dec b))
   | "f.inf", [which, sg] =>
     -- the infinities: to_fNN report an (inexact, NoOp) infinity, to_int panics as documented, every
     -- exact-or-refused conversion refuses
@@ -391,8 +450,17 @@ def dispatch : Dispatch := fun W op args =>
     | "try.ibig" | "try.ubig" | "try.u8" | "try.i64" | "to.rbig" => some (ok (errStr .outOfBounds))
     | "tryto_f32" | "tryto_f64" => some (ok (errStr .lossOfPrecision))
     | _ => none
-  | "f.tryto_f32", [a, ex] => do let s ← parseInt a; let e ← parseDec ex; pure (floatTryToIeeeOp "f32" .binary32 s e)
-  | "f.tryto_f64", [a, ex] => do let s ← parseInt a; let e ← parseDec ex; pure (floatTryToIeeeOp "f64" .binary64 s e)
+  | "f.tryto_f32", [a, ex] => do let s ← parseInt a; let e ← parseDec ex; pure (chk2 (fbigTryToFloatModel "f32" into32 s e) (floatTryToIeeeOp "f32" .binary32 s e))
+  | "f.tryto_f64", [a, ex] => do let s ← parseInt a; let e ← parseDec ex; pure (chk2 (fbigTryToFloatModel "f64" into64 s e) (floatTryToIeeeOp "f64" .binary64 s e))
+  | "f.to_f32.code", [bs, ms, a, ex] => do
+    let B ← parseBase bs; let mode ← Mode.parse ms; let s ← parseInt a; let e ← parseDec ex
+    if B ≠ 2 then none else pure (fbigToFloatCodeOp "f32" into32 mode s e)
+  | "f.to_f64.code", [bs, _ms, a, ex] => do
+    let B ← parseBase bs; let s ← parseInt a; let e ← parseDec ex
+    if B ≠ 2 then none else pure (fbigToFloatCodeOp "f64" into64 .halfEven s e)
+  | "fr.to_f32.code", [bs, a, ex] => do
+    let B ← parseBase bs; let s ← parseInt a; let e ← parseDec ex
+    if B ≠ 2 then none else pure (fbigToFloatCodeOp "f32" into32 .halfEven s e)
   | "f.from.rbig", [bs, a, b] => do
     let B ← parseBase bs; let n ← parseInt a; let d ← parseNat b
     if d = 0 then none
